@@ -885,6 +885,8 @@ class QueryPlanner:
     # method for compatibility
     def from_query(self, query=None):
         self.plan = QueryPlan()
+        # results of CTEs belong to the steps of one plan: a planner that is used again starts without them
+        self.cte_results = {}
 
         if query is None:
             query = self.query
